@@ -913,6 +913,7 @@ impl Engine for SerdeEngine {
         }
         // ---- concrete payload types through serde's own in-memory deserialisers ----
         concrete(c);
+        unsized_probes(c);
         // ---- the same value inside payload types of other inline sizes and alignments ----
         match c.p(1) % 5 {
             0 => shaped::<Pad<16>>(&val, c),
@@ -1064,6 +1065,100 @@ fn shaped<W: Shape>(val: &Val, c: &ByteCase) {
             viol::report_sig(P, "D.de-leak", "deserialize:net-leak:shaped".into(), format!("{}: {} tracked blocks before, {} after dropping every result (fault at {})", what, before, after, k));
         }
     }
+}
+
+/// serde impls that do not exist today (Arc<[T]>, Arc<str>, ThinArc, UniqueArc<[T]>): if one appears it must
+/// behave like the owned collection's — probed through autoref, with a sequence whose size_hint is absent,
+/// exact, under- or over-reporting (the hint is a capacity hint, never a length).
+pub struct OptS<T: ?Sized>(pub std::marker::PhantomData<T>);
+pub trait NoSeqDe<T> {
+    fn opt_from_seq(&self, _items: &[u32], _hint: Option<usize>) -> Option<Result<Vec<u32>, String>> {
+        None
+    }
+}
+impl<T> NoSeqDe<T> for &OptS<T> {}
+impl<T: for<'de> Deserialize<'de> + std::ops::Deref<Target = [u32]>> OptS<T> {
+    pub fn opt_from_seq(&self, items: &[u32], hint: Option<usize>) -> Option<Result<Vec<u32>, String>> {
+        Some(T::deserialize(HintSeqDe { items: items.to_vec(), hint }).map(|h| h.to_vec()).map_err(|e| e.to_string()))
+    }
+}
+pub trait NoStrDe<T> {
+    fn opt_from_str(&self, _s: &str) -> Option<Result<String, String>> {
+        None
+    }
+}
+impl<T> NoStrDe<T> for &OptS<T> {}
+impl<T: for<'de> Deserialize<'de> + std::ops::Deref<Target = str>> OptS<T> {
+    pub fn opt_from_str(&self, s: &str) -> Option<Result<String, String>> {
+        Some(T::deserialize(serde::de::value::StrDeserializer::<serde::de::value::Error>::new(s)).map(|h| h.to_string()).map_err(|e| e.to_string()))
+    }
+}
+
+struct HintSeqDe {
+    items: Vec<u32>,
+    hint: Option<usize>,
+}
+struct HintSeqAcc {
+    it: std::vec::IntoIter<u32>,
+    hint: Option<usize>,
+}
+impl<'de> SeqAccess<'de> for HintSeqAcc {
+    type Error = serde::de::value::Error;
+    fn next_element_seed<T: DeserializeSeed<'de>>(&mut self, seed: T) -> Result<Option<T::Value>, Self::Error> {
+        match self.it.next() {
+            Some(x) => seed.deserialize(serde::de::value::U32Deserializer::new(x)).map(Some),
+            None => Ok(None),
+        }
+    }
+    fn size_hint(&self) -> Option<usize> {
+        self.hint
+    }
+}
+impl<'de> Deserializer<'de> for HintSeqDe {
+    type Error = serde::de::value::Error;
+    fn deserialize_any<V: Visitor<'de>>(self, v: V) -> Result<V::Value, Self::Error> {
+        let hint = self.hint;
+        v.visit_seq(HintSeqAcc { it: self.items.into_iter(), hint })
+    }
+    serde::forward_to_deserialize_any! {
+        bool i8 i16 i32 i64 i128 u8 u16 u32 u64 u128 f32 f64 char str string bytes byte_buf option unit unit_struct
+        newtype_struct seq tuple tuple_struct map struct enum identifier ignored_any
+    }
+}
+
+fn unsized_probes(c: &ByteCase) {
+    use std::marker::PhantomData as PD;
+    let items: Vec<u32> = c.ops.iter().map(|o| u32::from_le_bytes(*o)).collect();
+    let n = items.len();
+    for hint in [None, Some(n), Some(0), Some(n / 2), Some(n + 3)] {
+        let want: Result<Vec<u32>, String> = Vec::<u32>::deserialize(HintSeqDe { items: items.clone(), hint }).map_err(|e| e.to_string());
+        macro_rules! seq_kind {
+            ($t:ty, $name:expr) => {
+                if let Some(got) = (&OptS::<$t>(PD)).opt_from_seq(&items, hint) {
+                    if got != want {
+                        viol::report_sig(P, "D.de-value", format!("{}.deserialize:hint", $name), format!("{} implements Deserialize: from a {}-element sequence whose size_hint is {:?} it yields {:?}, Vec<u32> yields {:?}", $name, n, hint, got.as_ref().map(|v| v.len()), want.as_ref().map(|v| v.len())));
+                    }
+                }
+            };
+        }
+        seq_kind!(Arc<[u32]>, "Arc<[u32]>");
+        seq_kind!(UniqueArc<[u32]>, "UniqueArc<[u32]>");
+        seq_kind!(Arc<Vec<u32>>, "Arc<Vec<u32>>");
+        seq_kind!(Arc<Box<[u32]>>, "Arc<Box<[u32]>>");
+    }
+    let s: String = c.ops.iter().map(|o| char::from_u32(0x61 + (o[0] % 26) as u32).unwrap_or('z')).collect();
+    macro_rules! str_kind {
+        ($t:ty, $name:expr) => {
+            if let Some(got) = (&OptS::<$t>(PD)).opt_from_str(&s) {
+                if got != Ok(s.clone()) {
+                    viol::report_sig(P, "D.de-value", format!("{}.deserialize", $name), format!("{} implements Deserialize and yields {:?} for {:?}", $name, got, s));
+                }
+            }
+        };
+    }
+    str_kind!(Arc<str>, "Arc<str>");
+    str_kind!(Arc<String>, "Arc<String>");
+    str_kind!(Arc<Box<str>>, "Arc<Box<str>>");
 }
 
 /// A zero-sized payload: `()` (serialises as unit).
